@@ -844,7 +844,14 @@ void SessionManager::receive_loop(const PeerId& peer_id, std::shared_ptr<Session
                 record_state(loop_state(drop_state.str()));
                 continue;
             }
-            handler_copy(message);
+            try {
+                handler_copy(message);
+            } catch (const std::exception& error) {
+                // A handler failure on remote input must not take the process down with
+                // std::terminate: drop the message and keep serving.
+                std::cerr << "[SessionManager] message handler failed id=" << session->debug_id
+                          << " error=" << error.what() << std::endl;
+            }
             std::ostringstream handled_state;
             handled_state << "stage=message-handled size=" << message.payload.size();
             record_state(loop_state(handled_state.str()));
